@@ -142,6 +142,16 @@ fn child_main(sc: &Scenario, fd: i32) -> ! {
             libc::dup2(devnull, 0);
             libc::dup2(devnull, 1);
         }
+        if let Some(bytes) = &sc.real_stdin_pipe {
+            // a real pipe, filled and closed before the program starts (must fit the pipe buffer)
+            let mut p = [0i32; 2];
+            if bytes.len() <= 60_000 && libc::pipe(p.as_mut_ptr()) == 0 {
+                write_all_fd(p[1], bytes);
+                libc::close(p[1]);
+                libc::dup2(p[0], 0);
+                libc::close(p[0]);
+            }
+        }
     }
     if sc.real_tree {
         if let Err(e) = make_real_tree(sc) {
